@@ -185,11 +185,21 @@ def extract_sat(prog, rep):
         return None
     rep.fn(key, BIDI + "is_valid_rtl_label", BIDI + "is_valid_ltr_label")
     w = au.CutWorld(prog, ("label",), {BIDI + "bidi_class": bidi_class_oracle(prog)})
+    res = lambda o: bool(o.value.v) if isinstance(o.value, ip.I) else repr(o.value)
     try:
-        aut = au.extract(prog, w, key, [Str(("label",))], class_names(prog), result_of=lambda o: bool(o.value.v) if isinstance(o.value, ip.I) else repr(o.value))
+        aut = au.extract(prog, w, key, [Str(("label",))], class_names(prog), result_of=res)
     except ip.AnalysisError as e:
-        rep.analysis_error("automaton", key, e, b.where())
-        return None
+        # not one pass over the label: try the declarative shape — several whole-label passes (all / any / a
+        # reverse scan over clones of one iterator) combined by a decision tree
+        from .. import passes
+
+        try:
+            aut = passes.extract(prog, key, [Str(("label",))], ("label",), class_names(prog), {BIDI + "bidi_class": bidi_class_oracle(prog)}, res)
+            rep.extra["multi_pass"] = aut.passes
+            rep.sample({"multi-pass validator": aut.passes})
+        except ip.AnalysisError as e2:
+            rep.analysis_error("automaton", key, "%s; as a multi-pass validator: %s" % (e, e2), b.where())
+            return None
     return aut
 
 
